@@ -130,3 +130,26 @@ Theorem generate_neighbours_local : forall (A W : Type) solver uniqueness score 
       exists cur, reachable prob (neighbours pt) (initial_of pt) cur /\ shape pt cur /\ nb pt cur q).
 Proof. exact generate_local. Qed.
 Print Assumptions generate_neighbours_local.
+
+(* tie T: the functions the translator produces from the CURRENT source of deterministic_random.py (Gen/PyIntRandom.v,
+   regenerated on every run: XorShift.__init__, XorShift.next, the argument checks / limit computation and the
+   acceptance test of randint) are the model's, which every theorem above is about; randint is the rejection loop over
+   the translated pieces *)
+From Cspuz Require Import Gen.PyIntRandom Generator.XorShiftGen.
+Theorem xorshift_init_from_source : forall seed, snd (xorshift_init_py seed) = fields (seed_state seed).
+Proof. exact xorshift_init_py_eq. Qed.
+Print Assumptions xorshift_init_from_source.
+
+Theorem xorshift_next_from_source : forall s,
+  xorshift_next_py (sx s) (sy s) (sz s) (sw s) = (fst (next s), fields (snd (next s))).
+Proof. exact xorshift_next_py_eq. Qed.
+Print Assumptions xorshift_next_from_source.
+
+Theorem randint_from_source : forall a b s,
+  randint a b s =
+  match randint_prelude_py a b with
+  | Err e => Raise e
+  | Ok (w, limit) => draw_loop RANDINT_FUEL (randint_accept_py a w limit) s
+  end.
+Proof. exact XorShiftGen.randint_from_source. Qed.
+Print Assumptions randint_from_source.
